@@ -231,6 +231,7 @@ def fc_cases(tier, pick=lambda: True):
 AC_N = 11
 AC_CHUNK = (1, 10)
 AC_GRID = (1, 3, 6, 8, 9)
+AC_VARIANTS = ((2, 3), (5, 7), (9, 10))  # spans of single-variant collections
 
 
 def ac_members():
@@ -287,6 +288,13 @@ def ac_cases(tier, pick=lambda: True):
                         continue  # explicit bounds outside the chunk: no documented meaning
                     if pick():
                         yield "ac", {"agg": "ac", "N": AC_N, "parent": pk, "bounds": list(b), "members": members}
+                    # variant collections among the members (every input order of two or three of them): part of the iteration
+                    # by start like any other member
+                    if n <= 2 and b == (None, None) and pk in ("none", "chrom"):
+                        for r in (1, 2, 3):
+                            for vs in itertools.permutations(AC_VARIANTS, r):
+                                if pick():
+                                    yield "ac", {"agg": "ac", "N": AC_N, "parent": pk, "bounds": list(b), "members": members, "variants": [list(v) for v in vs]}
 
 
 class Pick:
